@@ -7,6 +7,8 @@ whose atoms are the published rules; the mint admission table per extension and
 badge state; badge identity check; admission must-pass before pool/reward init.
 Also decided: parameter-changing instructions tie the accounts they validate against and write to (C15.R3
 instances re-decided here);
+Also decided: an extension arm of the mint admission can only reject or go on to the next extension (never accept), so every
+extension of a mint is looked at.
 Not decided: reachability of out-of-bound prices through swap arithmetic."""
 from analysis import cfg, writes, atoms as A, preach
 from analysis.ir import callee_path, op_place, AnchorMissing
